@@ -22,11 +22,12 @@ def as_cfg(v):
 
 def registry_consistent(ns):
   """State invariant of the registry: the Configurable stored under a name carries that
-  name as its `selector` (written by _make_configurable / _find_registered_methods only)."""
+  name as its `selector` and is a Configurable record (written by _make_configurable / _find_registered_methods only)."""
   m = M(ns['_REGISTRY'])
   return sym.forall([s_], z3.Implies(
       m.dom[s_], z3.And(
           as_cfg(m.val[s_]).fields['selector'].e == s_,
+          sym.ufun('isinst_Configurable', sym.Val, sym.BoolS)(m.val[s_]),
           sym.ufun('attr_selector', sym.Val, sym.Val)(m.val[s_]) == sym.val_of_str(s_),
           sym.val_truthy(m.val[s_]))), patterns=[m.val[s_]])
 
